@@ -43,19 +43,25 @@ pub struct Kind {
     pub events: &'static [(&'static str, Option<&'static str>)],
     /// "" = both data models
     pub only_dm: &'static str,
+    /// run with the crate's own DefaultTracer (the trace control events `trace.<mode>.<on|off>` are
+    /// interpreted by the Tracer trait's default `event_external_received`)
+    pub default_tracer: bool,
 }
 
 const fn k(name: &'static str, want: Want, body: &'static str) -> Kind {
-    Kind { name, want, body, s1: "", data: "", events: &[], only_dm: "" }
+    Kind { name, want, body, s1: "", data: "", events: &[], only_dm: "", default_tracer: false }
 }
 const fn ks1(name: &'static str, want: Want, s1: &'static str) -> Kind {
-    Kind { name, want, body: "", s1, data: "", events: &[], only_dm: "" }
+    Kind { name, want, body: "", s1, data: "", events: &[], only_dm: "", default_tracer: false }
 }
 const fn kdm(name: &'static str, want: Want, body: &'static str, only_dm: &'static str) -> Kind {
-    Kind { name, want, body, s1: "", data: "", events: &[], only_dm }
+    Kind { name, want, body, s1: "", data: "", events: &[], only_dm, default_tracer: false }
 }
 const fn kev(name: &'static str, events: &'static [(&'static str, Option<&'static str>)]) -> Kind {
-    Kind { name, want: Want::Any, body: "", s1: "", data: "", events, only_dm: "" }
+    Kind { name, want: Want::Any, body: "", s1: "", data: "", events, only_dm: "", default_tracer: false }
+}
+const fn kev_dt(name: &'static str, events: &'static [(&'static str, Option<&'static str>)]) -> Kind {
+    Kind { name, want: Want::Any, body: "", s1: "", data: "", events, only_dm: "", default_tracer: true }
 }
 
 pub const KINDS: &[Kind] = &[
@@ -161,6 +167,11 @@ pub const KINDS: &[Kind] = &[
     kev("event-done-invoke-for-nobody", &[("done.invoke.", None), ("done.invoke.nochild", None), ("done.state.s1", None)]),
     kev("event-with-unknown-invokeid", &[("e", Some("nochild")), ("done.invoke.nochild", Some("nochild"))]),
     kev("event-error-names-from-outside", &[("error.execution", None), ("error.communication", None), ("error.platform", None), ("error.platform.cancelx", None)]),
+    // trace control events, interpreted by the crate's own tracer (switching method tracing on in the
+    // middle of a run leaves the enter/leave bookkeeping unbalanced when the session ends)
+    kev_dt("event-trace-control-methods", &[("trace.methods.on", None)]),
+    kev_dt("event-trace-control-all", &[("trace.all.on", None), ("trace.states.off", None), ("trace.all.off", None)]),
+    kev_dt("event-trace-control-odd", &[("trace.nosuch.on", None), ("trace.methods.maybe", None), ("trace.", None), ("trace.a.b.c", None), ("trace.METHODS.ON", None)]),
     kev("event-non-ascii-and-markup", &[("é.ü", None), ("<a b=\"c\">", None), ("a b\tc\n", None)]),
 ];
 
@@ -245,7 +256,9 @@ pub fn run_one(kind: &Kind, dm: &str, place: &str, variant: usize) -> Value {
     };
     let mut fsm = fsm;
     let (tracer, log) = RecTracer::new(true);
-    fsm.tracer = Box::new(tracer);
+    if !kind.default_tracer {
+        fsm.tracer = Box::new(tracer);
+    }
     let executor = FsmExecutor::new_without_io_processor();
     let actions = mark_actions(&log);
     let mut session = fsm::start_fsm_with_data_and_finish_mode(fsm, actions, Box::new(executor.clone()), &[], FinishMode::KEEP_CONFIGURATION);
@@ -268,7 +281,13 @@ pub fn run_one(kind: &Kind, dm: &str, place: &str, variant: usize) -> Value {
         }
         true
     };
-    let started = wait(&|| idles(&log) >= 1 || handle.is_finished(), Duration::from_secs(4));
+    let started = if kind.default_tracer {
+        // no idle marker without the recording tracer
+        std::thread::sleep(Duration::from_millis(150));
+        !handle.is_finished()
+    } else {
+        wait(&|| idles(&log) >= 1 || handle.is_finished(), Duration::from_secs(4))
+    };
     let _ = session.sender.send(Box::new(Event::new_simple("go")));
     for (n, inv) in kind.events {
         let mut e = Event::new_simple(n);
